@@ -159,6 +159,7 @@ async fn hist_case(seed: u64, case: u64, max_ops: usize, report: &Report) {
             .last()
             .map(|s| s.config.iter().filter(|(k, _)| k.starts_with("lance.auto_cleanup.")).map(|(k, v)| (k.clone(), v.clone())).collect())
             .unwrap_or_default();
+        let listed_before = h.listed_versions(&loc).await;
         let tagged_before = h.tagged_versions(&loc.table);
         let latest_before = h.lin[&loc].latest();
         let rec = h.step(kind).await;
@@ -177,7 +178,7 @@ async fn hist_case(seed: u64, case: u64, max_ops: usize, report: &Report) {
         let ctx = |h: &Hist| json!({"seed": seed, "case": case, "config": h.cfg.describe(), "step": rec.brief(), "ops": h.ops_json(48)});
 
         // ---- which versions had to survive?
-        let versions: Vec<(u64, DateTime<Utc>)> = before_snaps.iter().map(|(v, s)| (*v, s.timestamp)).collect();
+        let versions: Vec<(u64, DateTime<Utc>)> = listed_before.clone();
         let removed: BTreeSet<u64> = rec.removed_versions.iter().filter(|(l, _)| *l == loc).map(|(_, v)| *v).collect();
         let (must_survive, explicit): (BTreeSet<u64>, bool) = match (&rec.extra, kind) {
             (Extra::Cleanup { policy, before, tagged, latest, .. }, OpKind::Cleanup) => {
@@ -199,7 +200,14 @@ async fn hist_case(seed: u64, case: u64, max_ops: usize, report: &Report) {
                 (before.iter().map(|v| v.0).filter(|v| !selected.contains(v)).collect(), true)
             }
             _ => {
-                // auto cleanup triggered by a commit (or nothing should have been deleted at all)
+                // auto cleanup triggered by a commit (or nothing should have been deleted at all).
+                // The hook reads the config of the manifest just committed.
+                let auto_cfg: BTreeMap<String, String> = h.lin[&loc]
+                    .snaps
+                    .values()
+                    .last()
+                    .map(|s| s.config.iter().filter(|(k, _)| k.starts_with("lance.auto_cleanup.")).map(|(k, v)| (k.clone(), v.clone())).collect())
+                    .unwrap_or(auto_cfg.clone());
                 let interval = auto_cfg.get("lance.auto_cleanup.interval");
                 if interval.is_none() {
                     let allowed = matches!(kind, OpKind::TagDelete | OpKind::CrashedAppend);
@@ -213,7 +221,15 @@ async fn hist_case(seed: u64, case: u64, max_ops: usize, report: &Report) {
                     let older = auto_cfg.get("lance.auto_cleanup.older_than").cloned();
                     let retain: Option<usize> = auto_cfg.get("lance.auto_cleanup.retain_versions").and_then(|s| s.parse().ok());
                     let mut keep: BTreeSet<u64> = BTreeSet::new();
-                    keep.insert(latest_before);
+                    // the hook of a commit runs with the handle at the previous version: that one
+                    // and everything newer count as "latest" (multi-commit ops run it repeatedly)
+                    let latest_after = h.lin[&loc].latest();
+                    keep.insert(latest_after);
+                    if latest_after > 1 {
+                        keep.insert(latest_after - 1);
+                    }
+                    keep.retain(|v| versions.iter().any(|x| x.0 == *v));
+                    let _ = latest_before;
                     keep.extend(tagged_before.iter().copied());
                     // loosest admissible reading: "0s" => everything older than now may go;
                     // "1000days" => nothing may go; retain n => the last n of the listing that
@@ -238,7 +254,8 @@ async fn hist_case(seed: u64, case: u64, max_ops: usize, report: &Report) {
         let lin = &h.lin[&loc];
         let mut retained_now = 0u64;
         for v in &must_survive {
-            if removed.contains(v) || !lin.snaps.contains_key(v) {
+            let still_listed = lin.snaps.contains_key(v) || lin.unreadable.contains_key(v);
+            if removed.contains(v) || !still_listed {
                 let class = if tagged_before.contains(v) {
                     "cleanup-removed-tagged-version"
                 } else if *v == latest_before {
@@ -256,6 +273,9 @@ async fn hist_case(seed: u64, case: u64, max_ops: usize, report: &Report) {
                 continue;
             }
             retained_now += 1;
+            if !lin.snaps.contains_key(v) {
+                continue; // could never be read (C05's subject): nothing to compare with
+            }
             let r = h.recheck_version(&loc, *v, true).await;
             report.count("retained_versions_reread", 1);
             match r {
